@@ -229,6 +229,38 @@ func TestC07_Concurrent(t *testing.T) {
 			scratch = true
 			ne = 0
 		}
+		// rarely: values nested far deeper than anything else here (beyond the
+		// depths at which an implementation may switch to bookkeeping for long
+		// recursions), equal or different only at the bottom, compared by many
+		// goroutines at once
+		if ne > 0 && rapid.IntRange(0, 39).Draw(t, "deepcase") == 0 {
+			depth := gen.Pick(t, "deepdepth", []int{70, 130, 300, 1100})
+			shape := rapid.IntRange(0, 2).Draw(t, "deepshape")
+			nest := func(leaf jv.Val) jv.Val {
+				v := leaf
+				for i := 0; i < depth; i++ {
+					if shape == 0 || (shape == 2 && i%2 == 0) {
+						v = jv.VObj([]jv.Member{{K: "k", V: v}})
+					} else {
+						v = jv.VArr([]jv.Val{v})
+					}
+				}
+				return v
+			}
+			deep := jv.VObj([]jv.Member{{K: "p", V: nest(jv.VInt(1))}, {K: "q", V: nest(jv.VInt(2))}, {K: "r", V: nest(jv.VInt(1))}, {K: "s", V: nest(jv.VNumText("1.0"))}})
+			vals = []jv.Val{deep}
+			nd = 1
+			sc.Docs = []run.Node{run.FromVal(deep)}
+			pool := []string{"p == q", "p != q", "p == r", "q == r", "p == s", "contains([q, q], p)", "contains([q, r], p)", "[p, q, r][?@ == $.p] | length(@)", "{a: p == q, b: q == p, c: p == r}", "[q][?@ != $.p] | length(@)", "[p == q, q != r, s == q]"}
+			ne = rapid.IntRange(2, 4).Draw(t, "ndeep")
+			for i := 0; i < ne; i++ {
+				sc.Exprs = append(sc.Exprs, gen.Pick(t, "deepexpr", pool))
+				sc.Loose = append(sc.Loose, false)
+				sc.Multi = append(sc.Multi, []bool{false})
+			}
+			scratch = true
+			ne = 0
+		}
 		for i := 0; i < ne; i++ {
 			g := &gen.G{T: t, Root: vals[0], Cfg: cfg}
 			var e ast.Expr
